@@ -106,6 +106,19 @@ func Unnest(a Set, attr string) (Set, error) {
 	if !key.Has(attr) {
 		return nil, fmt.Errorf("unnest attr %q not found in relation (%v)", attr, key)
 	}
+	for e := a.Enumerator(); e.MoveNext(); {
+		t, is := e.Current().(Tuple)
+		if !is {
+			return nil, fmt.Errorf("unnest: not a relation; has non-tuple element(s) (e.g.: %s)", ValueTypeAsString(e.Current()))
+		}
+		nested, is := t.MustGet(attr).(Set)
+		if !is {
+			return nil, fmt.Errorf("unnest attr %q must be a relation, not %s", attr, ValueTypeAsString(t.MustGet(attr)))
+		}
+		if _, err := RelationAttrs(nested); err != nil {
+			return nil, fmt.Errorf("unnest attr %q: %v", attr, err)
+		}
+	}
 	return Reduce(
 		a,
 		func(value Value) Value {
